@@ -200,7 +200,8 @@ impl NotificationHandler for DidOpenTextDocument {
 impl NotificationHandler for DidChangeTextDocument {
     fn handle(cache: &mut Cache, params: Self::Params) -> Option<Notification> {
         let uri = params.text_document.uri;
-        let text = params.content_changes.into_iter().next().unwrap().text;
+        // full-text sync: the changes of one notification apply in order, so the last one is the document
+        let text = params.content_changes.into_iter().last()?.text;
         let diagnostics = {
             cache.invalidate(&uri);
             cache.analyze(uri.clone(), text);
